@@ -7,6 +7,8 @@
 //	       (source items vs the text of its line boxes over all pages), one
 //	       COrder case per document, one CDraw case per page
 //	units  the C12 document stream: CUnits + CDraw per page
+//	eq     tree.ResumeStack.Equals on pairs of random nested stacks (copies, copies changed
+//	       somewhere deep down, independent ones)
 //
 // Documents run in worker subprocesses (a crash / hang is recorded as a case
 // the model cannot agree with).
@@ -25,6 +27,7 @@ import (
 	pr "github.com/benoitkugler/webrender/css/properties"
 	bo "github.com/benoitkugler/webrender/html/boxes"
 	"github.com/benoitkugler/webrender/html/document"
+	"github.com/benoitkugler/webrender/html/tree"
 	"verifharness/pagedoc"
 	"verifharness/vlib"
 	"verifharness/vlib/render"
@@ -183,6 +186,131 @@ func wsCase(r *vlib.Rng) vlib.Case {
 	return c
 }
 
+// ---------------------------------------------------------------- eq stream: ResumeStack.Equals
+
+// a random resume stack: mostly one entry per level (block / line fragmentation), sometimes
+// several (out-of-flow boxes, table cells), nil or an empty map at the leaves
+func genStack(r *vlib.Rng, depth int) tree.ResumeStack {
+	if depth == 0 || r.Chance(1, 6) {
+		if r.Chance(1, 3) {
+			return tree.ResumeStack{}
+		}
+		return nil
+	}
+	n := vlib.Pick(r, []int{1, 1, 1, 1, 2, 3})
+	out := tree.ResumeStack{}
+	for i := 0; i < n; i++ {
+		out[r.Range(0, 12)] = genStack(r, depth-1)
+	}
+	return out
+}
+
+func copyStack(s tree.ResumeStack) tree.ResumeStack {
+	if s == nil {
+		return nil
+	}
+	out := tree.ResumeStack{}
+	for k, v := range s {
+		out[k] = copyStack(v)
+	}
+	return out
+}
+
+func sortedKeys(s tree.ResumeStack) []int {
+	var ks []int
+	for k := range s {
+		ks = append(ks, k)
+	}
+	sort.Ints(ks)
+	return ks
+}
+
+// mutateDeep changes the copy somewhere along a random path, preferably far from the root:
+// another key, an entry more or less, another sub-stack of the same size
+func mutateDeep(r *vlib.Rng, s tree.ResumeStack) tree.ResumeStack {
+	if len(s) == 0 {
+		return tree.ResumeStack{r.Range(0, 12): nil}
+	}
+	ks := sortedKeys(s)
+	k := ks[r.Intn(len(ks))]
+	if len(s[k]) != 0 && r.Chance(4, 5) {
+		s[k] = mutateDeep(r, s[k])
+		return s
+	}
+	switch r.Intn(4) {
+	case 0: // another key for the same sub-stack
+		nk := k + r.Range(1, 5)
+		if _, has := s[nk]; !has {
+			s[nk] = s[k]
+			delete(s, k)
+			return s
+		}
+		fallthrough
+	case 1: // one entry more
+		for nk := 0; ; nk++ {
+			if _, has := s[nk]; !has {
+				s[nk] = nil
+				return s
+			}
+		}
+	case 2: // one entry less
+		delete(s, k)
+		return s
+	default: // the sub-stack grows by a level
+		s[k] = tree.ResumeStack{r.Range(0, 12): nil}
+		if r.Chance(1, 2) {
+			s[k] = mutateDeep(r, s[k])
+		}
+		return s
+	}
+}
+
+func stackCoq(s tree.ResumeStack) string {
+	var es []string
+	for _, k := range sortedKeys(s) {
+		es = append(es, fmt.Sprintf("((%d)%%Z, %s)", k, stackCoq(s[k])))
+	}
+	return "(MS " + vlib.List(es) + ")"
+}
+
+func eqCases(r *vlib.Rng) []vlib.Case {
+	var out []vlib.Case
+	for i := 0; i < 25; i++ {
+		a := genStack(r, r.Range(1, 6))
+		var b tree.ResumeStack
+		kind := "copy"
+		switch k := r.Intn(10); {
+		case k < 3:
+			b = copyStack(a)
+		case k < 9:
+			b = mutateDeep(r, copyStack(a))
+			kind = "deep-change"
+			if r.Chance(1, 4) {
+				b = mutateDeep(r, b)
+			}
+		default:
+			b = genStack(r, r.Range(1, 6))
+			kind = "independent"
+		}
+		if r.Bool() {
+			a, b = b, a
+		}
+		var res bool
+		o := render.Guard(func() { res = a.Equals(b) })
+		c := vlib.Case{Kind: "eq", Nontrivial: true, Tags: []string{"stream=eq", "pair=" + kind},
+			Desc: map[string]interface{}{"r": a.String(), "other": b.String(), "equals": res}}
+		if o.Status != "ok" {
+			c.Desc.(map[string]interface{})["panic"] = o.Msg
+			res = !reflectEqual(a, b) // an answer the model cannot agree with
+		}
+		c.Coq = fmt.Sprintf("CEq %s %s %s", stackCoq(a), stackCoq(b), vlib.Bool(res))
+		out = append(out, c)
+	}
+	return out
+}
+
+func reflectEqual(a, b tree.ResumeStack) bool { return stackCoq(a) == stackCoq(b) }
+
 // ---------------------------------------------------------------- page observation
 
 type lineObs struct {
@@ -192,8 +320,9 @@ type lineObs struct {
 }
 
 type textBoxObs struct {
-	Visible bool
-	Text    string
+	Visible      bool // as the source declares it (nearest element that sets visibility)
+	Text         string
+	StyleVisible bool // the computed style of the box (not compared)
 }
 
 func elemID(b bo.Box) string {
@@ -209,6 +338,19 @@ func elemID(b bo.Box) string {
 	return ""
 }
 
+func hasClass(b bo.Box, class string) bool {
+	e := b.Box().Element
+	if e == nil {
+		return false
+	}
+	for _, a := range e.Attr {
+		if a.Key == "class" && a.Val == class {
+			return true
+		}
+	}
+	return false
+}
+
 // text of a line box: its text boxes reached through inline boxes only
 func lineText(b bo.Box, sb *strings.Builder) {
 	for _, c := range b.Box().Children {
@@ -218,6 +360,15 @@ func lineText(b bo.Box, sb *strings.Builder) {
 				sb.WriteString(t.TextS())
 			}
 		case *bo.InlineBox:
+			if t.PseudoType == "before" && hasClass(t, "pc") {
+				// the generated word of a TPageCount item (never broken: nowrap), whatever its length
+				var in strings.Builder
+				lineText(t, &in)
+				if in.Len() != 0 {
+					sb.WriteString(pagedoc.PageCountMark)
+				}
+				continue
+			}
 			lineText(t, sb)
 		}
 	}
@@ -250,34 +401,76 @@ func walkLines(b bo.Box, para, page int, out *[]lineObs, frags *[]fragObs) {
 	}
 }
 
-func pageTextBoxes(p *bo.PageBox) []textBoxObs {
-	var out []textBoxObs
-	render.Walk(p, func(b bo.Box, _ int) {
-		if t, ok := b.(*bo.TextBox); ok {
-			out = append(out, textBoxObs{Visible: t.Style.GetVisibility() == "visible", Text: t.TextS()})
+// visibility of a box as the source declares it: the value set in the style attribute of
+// the nearest ancestor-or-self element of the box's element that sets it (visibility is
+// inherited; the generated documents set it in style attributes only); "" when none does
+func sourceVisibility(b bo.Box) string {
+	for e := b.Box().Element; e != nil; e = e.Parent {
+		for _, a := range e.Attr {
+			if a.Key != "style" {
+				continue
+			}
+			for _, d := range strings.Split(a.Val, ";") {
+				if kv := strings.SplitN(d, ":", 2); len(kv) == 2 && strings.TrimSpace(kv[0]) == "visibility" {
+					return strings.TrimSpace(kv[1])
+				}
+			}
 		}
-	})
-	return out
+	}
+	return ""
+}
+
+func visOpt(b bo.Box) (string, bool) {
+	switch sourceVisibility(b) {
+	case "":
+		return "None", true
+	case "visible":
+		return "(Some true)", true
+	default:
+		return "(Some false)", false
+	}
+}
+
+// the box tree of a page as a Layout/TextDraw.v `vbox`: every box with the visibility the
+// source gives it, text boxes with their text
+func pageVTree(b bo.Box, out *[]textBoxObs) string {
+	set, vis := visOpt(b)
+	if t, ok := b.(*bo.TextBox); ok {
+		*out = append(*out, textBoxObs{Visible: vis, Text: t.TextS(), StyleVisible: t.Style.GetVisibility() == "visible"})
+		return fmt.Sprintf("VBox %s [VText %s]", set, vlib.Runes(t.TextS()))
+	}
+	var ks []string
+	for _, c := range b.Box().Children {
+		ks = append(ks, pageVTree(c, out))
+	}
+	return fmt.Sprintf("VBox %s %s", set, vlib.List(ks))
 }
 
 func drawCases(d *document.Document, tags []string, key string) []vlib.Case {
 	rec := render.Draw(d, 1)
 	var out []vlib.Case
 	for i, pg := range d.Pages {
-		boxes := pageTextBoxes(document.VerifC02PageBox(pg))
-		var bs, ds, dd []string
-		for _, b := range boxes {
-			bs = append(bs, fmt.Sprintf("(%s, %s)", vlib.Bool(b.Visible), vlib.Runes(b.Text)))
-		}
+		var boxes []textBoxObs
+		tree := pageVTree(document.VerifC02PageBox(pg), &boxes)
+		var ds, dd []string
 		for _, e := range rec.Events {
 			if e.Op == "DrawText" && e.Page == i {
 				ds = append(ds, vlib.Runes(e.S))
 				dd = append(dd, e.S)
 			}
 		}
-		out = append(out, vlib.Case{Kind: "draw", Coq: fmt.Sprintf("CDraw %s %s", vlib.List(bs), vlib.List(ds)),
+		ptags := tags
+		hidden, shown := false, false
+		for _, b := range boxes {
+			hidden = hidden || !b.Visible
+			shown = shown || b.Visible
+		}
+		if hidden {
+			ptags = append(append([]string{}, tags...), "page-has-hidden-text")
+		}
+		out = append(out, vlib.Case{Kind: "draw", Coq: fmt.Sprintf("CDraw (%s) %s", tree, vlib.List(ds)),
 			Desc: map[string]interface{}{"doc": key, "page": i, "text_boxes": boxes, "draw_text": dd},
-			Tags: tags, Nontrivial: len(boxes) > 0})
+			Tags: ptags, Nontrivial: len(boxes) > 0})
 	}
 	return out
 }
@@ -458,8 +651,17 @@ func handle(in string) string {
 		for i := 0; i < 20; i++ {
 			cases = append(cases, wsCase(r.Fork()))
 		}
+	case "eq":
+		cases = eqCases(r)
 	case "units":
-		cases = unitDocCases(pagedoc.Generate(r, pagedoc.RandomProfile(r)))
+		p := pagedoc.RandomProfile(r)
+		if r.Chance(1, 2) && !p.Decor {
+			// content conservation around the second layout of a block whose bottom padding /
+			// border does not fit: half of the unit documents are of the decorated kind
+			p.Decor, p.Spacing, p.MaxUnits = true, true, r.Range(12, 36)
+			p.Rules, p.Exotic, p.OW = false, false, r.Chance(1, 4)
+		}
+		cases = unitDocCases(pagedoc.Generate(r, p))
 	case "corpus":
 		b, err := os.ReadFile(j.Corpus)
 		if err != nil {
@@ -524,13 +726,16 @@ func main() {
 	for _, f := range files {
 		jobs = append(jobs, job{Corpus: f, Stream: "corpus"})
 	}
-	// a text document yields ~12 cases, a unit document ~5, a ws job 20
+	// a text document yields ~12 cases, a unit document ~5, a ws job 20, an eq job 25
 	for est := 0; est < *n; {
-		switch k := rng.Intn(10); {
-		case k == 0:
+		switch k := rng.Intn(20); {
+		case k < 2:
 			jobs = append(jobs, job{Seed: rng.U64(), Stream: "ws"})
 			est += 20
-		case k < 3:
+		case k == 2:
+			jobs = append(jobs, job{Seed: rng.U64(), Stream: "eq"})
+			est += 25
+		case k < 8:
 			jobs = append(jobs, job{Seed: rng.U64(), Stream: "units"})
 			est += 5
 		default:
